@@ -8,6 +8,7 @@ import (
 	"fmt"
 	"io"
 	"net/http"
+	"os"
 	"sort"
 	"strings"
 	"sync"
@@ -248,6 +249,10 @@ func runC04Bubble(t *testing.T, c c04Case) (out c04Outcome, err error) {
 	<-done
 	if perr != nil && err == nil {
 		err = fmt.Errorf("attack did not end or left goroutines behind (bubble: %v); case %+v", perr, c)
+	} else if err != nil && os.Getenv("VERIF_AS") == "C02" {
+		// run for C02 (VERIF_AS): only "the attack ends and leaves nothing behind" is C02's business here
+		vh.Note("C04 loop: a case failed a clause of C04 (reported by its own check): %.200s", err.Error())
+		err = nil
 	}
 	return out, err
 }
@@ -278,7 +283,9 @@ func c04Wait(t *rapid.T, l string, dur int64) int64 {
 }
 
 func TestC04Loop(t *testing.T) {
-	vh.Regress(t, "C04")
+	if os.Getenv("VERIF_AS") != "C02" {
+		vh.Regress(t, "C04")
+	}
 	vh.Check(t, 400, 20000, func(t *rapid.T) {
 		var c c04Case
 		if rapid.IntRange(0, 2).Draw(t, "hasdur") != 0 {
@@ -308,19 +315,26 @@ func TestC04Loop(t *testing.T) {
 		if rapid.IntRange(0, 2).Draw(t, "slowconsumer") == 0 {
 			c.ConsumerDelay = rapid.Int64Range(1, 2e9).Draw(t, "cdelay")
 		}
-		vh.Inflight("C04", "C04.loop", c)
+		prop := "C04"
+		if os.Getenv("VERIF_AS") == "C02" {
+			prop = "C02"
+		}
+		vh.Inflight(prop, prop+".loop", c)
 		out, err := runC04Bubble(vh.CurT, c)
 		nt := out.hits >= 3 && out.positiveWaits >= 1 && (out.endedBy == "duration" || out.endedBy == "pacer-stop")
 		sig, _ := json.Marshal(c)
-		vh.Case("C04.loop", string(sig), nt, "ended:"+out.endedBy)
-		vh.Count("C04.loop", "hits", out.hits)
+		vh.Case(prop+".loop", string(sig), nt, "ended:"+out.endedBy)
+		vh.Count(prop+".loop", "hits", out.hits)
 		if len(c.Waits) <= 6 {
-			vh.Sample("C04.loop", nt, c)
+			vh.Sample(prop+".loop", nt, c)
 		}
 		if err != nil {
-			vh.Fail(t, "C04", "C04.loop", c, err)
+			vh.Fail(t, prop, prop+".loop", c, err)
 		}
 	})
 }
 
-func init() { vh.RegisterReplay("C04.loop", vh.Replayer(runC04)) }
+func init() {
+	vh.RegisterReplay("C04.loop", vh.Replayer(runC04))
+	vh.RegisterReplay("C02.loop", vh.Replayer(runC04))
+}
